@@ -66,6 +66,36 @@ let sqlite_ty (s : Stdlib.String.t) : Sqlite.ty =
   | "sqlite.UserDefinedType" -> UserDefinedType (gs kv "T")
   | c -> failwith ("sqlite class " ^ c)
 
+let mysql_iattrs kv =
+  let v = get kv "Attrs" in
+  let v = Stdlib.String.sub v 1 (Stdlib.String.length v - 2) in
+  if v = "" then [] else Stdlib.List.map (fun a ->
+    match Stdlib.String.split_on_char '/' a with
+    | ["mysql.DisplayWidth"; n] -> Mysql.DisplayWidth (z_of_int (int_of_string n))
+    | ["mysql.ZeroFill"; h] -> Mysql.ZeroFill (hb h)
+    | _ -> failwith ("mysql attr " ^ a)) (Stdlib.String.split_on_char ':' v)
+
+let mysql_ty (s : Stdlib.String.t) : Mysql.ty =
+  let (cls, kv) = parse_struct s in
+  let open Mysql in
+  match cls with
+  | "schema.BoolType" -> BoolType (gs kv "T")
+  | "schema.BinaryType" -> BinaryType (gs kv "T", go kv "Size")
+  | "schema.EnumType" -> EnumType (gs kv "T", gl kv "Values")
+  | "schema.IntegerType" -> IntegerType (gs kv "T", gb kv "Unsigned", mysql_iattrs kv)
+  | "schema.StringType" -> StringType (gs kv "T", gi kv "Size")
+  | "schema.TimeType" -> TimeType (gs kv "T", go kv "Precision", go kv "Scale")
+  | "schema.FloatType" -> FloatType (gs kv "T", gb kv "Unsigned", gi kv "Precision")
+  | "schema.DecimalType" -> DecimalType (gs kv "T", gi kv "Precision", gi kv "Scale", gb kv "Unsigned")
+  | "schema.JSONType" -> JSONType (gs kv "T")
+  | "schema.SpatialType" -> SpatialType (gs kv "T")
+  | "schema.UUIDType" -> UUIDType (gs kv "T")
+  | "schema.UnsupportedType" -> UnsupportedType (gs kv "T")
+  | "mysql.BitType" -> BitType (gs kv "T", gi kv "Size")
+  | "mysql.SetType" -> SetType (gl kv "Values")
+  | "mysql.NetworkType" -> NetworkType (gs kv "T")
+  | c -> failwith ("mysql class " ^ c)
+
 let () =
   (try
     while true do
@@ -75,6 +105,7 @@ let () =
         | id :: dialect :: ty :: _ ->
           let (l1, l2) = match dialect with
             | "sqlite" -> let t = sqlite_ty ty in (Sqlite.obs_fmt_sqlite t, Sqlite.obs_hcl_sqlite t)
+            | "mysql" -> let t = mysql_ty ty in (Mysql.obs_fmt_mysql t, Mysql.obs_hcl_mysql t)
             | d -> failwith ("dialect " ^ d) in
           Printf.printf "%s %s\n%s %s\n" id (string_of_bytes l1) id (string_of_bytes l2)
         | _ -> failwith ("bad case line: " ^ line)
